@@ -246,6 +246,28 @@ def run_case(case, ctx):
                         g2.add(int(t[1]))
                 if g2 != bad_now or again.rc == 0:
                     return Outcome(ok=False, why="scrub -p bad re-reports stripes %r, bad stripes are %r (rc=%d)" % (sorted(g2)[:4], sorted(bad_now)[:4], again.rc))
+                # the damage is still there: the second scrub and a following check must name the same blocks again, and nothing else
+                # (stripes that were bad before this case's damage may hold older, unknown damage: left out)
+                for label, run2, wantp in (("scrub -p bad after the scrub", again, set(x for x in exp_par if x[0] in bad_now)),
+                                           ("check after the scrub", w.cmd("check"), set((pos, lev) for (pos, lev) in done_p if per_stripe[pos] <= levels))):
+                    if run2.timed_out:
+                        return Outcome(ok=True, inconclusive=True)
+                    gd, gp = set(), set()
+                    for t in run2.tags:
+                        if t[0] == b"error" and len(t) >= 5 and b"Data error at position" in t[4]:
+                            gd.add((int(t[1]), t[2].decode(), t[3], int(t[4].split(b"position")[1].split(b",")[0])))
+                        elif t[0] == b"parity_error" and len(t) >= 4 and t[3] != b"hash" and b"Data error" in t[3]:
+                            lev = ["parity", "2-parity", "3-parity", "4-parity", "5-parity", "6-parity", "z-parity"].index(t[2].decode())
+                            gp.add((int(t[1]), 2 if lev == 6 else lev))
+                    wantd = set(x for x in done_d if label.startswith("check") or x[0] in bad_now)
+                    gd = set(x for x in gd if x[0] not in prev_bad)
+                    gp = set(x for x in gp if x[0] not in prev_bad)
+                    wantd = set(x for x in wantd if x[0] not in prev_bad)
+                    wantp = set(x for x in wantp if x[0] not in prev_bad)
+                    if gd != wantd:
+                        return Outcome(ok=False, why="%s: data errors not reported %r, reported without damage %r" % (label, sorted(wantd - gd)[:2], sorted(gd - wantd)[:2]))
+                    if gp != wantp:
+                        return Outcome(ok=False, why="%s: parity errors not reported %r, reported without damage %r" % (label, sorted(wantp - gp)[:2], sorted(gp - wantp)[:2]))
         else:
             if w.arr.read_content() != pre_content:
                 return Outcome(ok=False, why="%s modified the content file" % cmd)
